@@ -142,7 +142,9 @@ pub fn gen_number_grammar() -> String {
     if chance(1, 3) {
         s.push('-');
     }
-    let int_digits = *pick(&[1u32, 1, 2, 3, 5, 9, 15]);
+    // now and then a digit run longer than the skippers' 32-byte blocks
+    let long = chance(1, 12);
+    let int_digits = if long { *pick(&[29u32, 31, 32, 33, 40, 70]) } else { *pick(&[1u32, 1, 2, 3, 5, 9, 15]) };
     if int_digits == 1 && chance(1, 3) {
         s.push('0');
     } else {
@@ -154,7 +156,7 @@ pub fn gen_number_grammar() -> String {
     let frac = chance(1, 2);
     if frac {
         s.push('.');
-        for _ in 0..*pick(&[1u32, 1, 2, 3, 6, 12]) {
+        for _ in 0..(if chance(1, 12) { *pick(&[28u32, 30, 31, 32, 33, 64]) } else { *pick(&[1u32, 1, 2, 3, 6, 12]) }) {
             s.push(char::from(b'0' + draw(10) as u8));
         }
     }
